@@ -287,7 +287,17 @@ fn run_ising_job(j: &IsingJob, nsteps: usize, seed_xor: u64) -> Outcome {
                 st.add(&x);
             }
         }
-        st.mean_err()
+        let mut me = st.mean_err();
+        // the energy REPORTED by the public measuring helper with a sampling period > 1 (the value a
+        // user sees): 20 further chunks through timesteps_measure(.., Some(3)), binned
+        if prop.contains("C01") && rvb == 0 {
+            let chunk = (nsteps / 40).max(30);
+            let vals: Vec<f64> = (0..20).map(|_| g.timesteps_measure(chunk, beta, (), |_, _| (), Some(3)).1).collect();
+            let mean = vals.iter().sum::<f64>() / 20.0;
+            let var = vals.iter().map(|v| (v - mean) * (v - mean)).sum::<f64>() / 19.0;
+            me.push((mean, (var / 20.0).sqrt()));
+        }
+        me
     }));
     if let Some(dmsg) = &drift {
         hard = true;
@@ -329,6 +339,12 @@ fn run_ising_job(j: &IsingJob, nsteps: usize, seed_xor: u64) -> Outcome {
                 };
                 if let Some(m) = judge(&format!("<n_bond{}>", b), me[1 + n + n * n + b].0, me[1 + n + n * n + b].1, want, 0.03) {
                     bad.push(m);
+                }
+            }
+            if me.len() > 1 + n + n * n + nb {
+                let (m, e) = me[1 + n + n * n + nb];
+                if let Some(msg) = judge("energy returned by timesteps_measure(sampling period 3)", m, e, ex.energy, 0.03) {
+                    bad.push(msg);
                 }
             }
             if !bad.is_empty() {
